@@ -153,3 +153,288 @@ Lemma opdel_ids : forall ids ow, only_ids ids (opdel ow).
 Proof. intros ids ow t i Hin He. destruct ow; simpl in Hin; try tauto. destruct Hin as [<-|[]]. discriminate. Qed.
 Lemma only_ids_cons : forall ids t l, (forall i, ev_id t = Some i -> In i ids) -> only_ids ids l -> only_ids ids (t :: l).
 Proof. intros ids t l Ht Hl x i [<-|Hin] He; eauto. Qed.
+
+(* ---- the entry points, one by one: the body function is evaluated on the concrete shapes the invariant
+   allows (the child's result is an abstract record constrained by [cfacts]) ---------------------------- *)
+Section Step.
+Variables (vr : variant) (tid : nat) (treact : bool) (I : ops) (G : sst -> Prop) (ms : sst -> nat -> monst) (ids : list nat).
+Hypothesis S : spec I G ms ids.
+Hypothesis Htid : ~ In tid ids.
+
+Lemma tu_fin : forall h pm pm' u si u' st' ev out fired,
+  h = hist_of si -> hist_of st' = hist_of si ++ kn out -> G st' -> tu_cpl pm' (pm_of st') u' ->
+  mrun tid (ms_of_src (tu_trig u)) ev = Some (ms_of_src (tu_trig u')) ->
+  (forall id, Nat.eqb tid id = false -> mrun id (ms si id) ev = Some (ms st' id)) ->
+  only_ids (tid :: ids) ev ->
+  ok (G_tu G) (ms_tu tid ms) (tid :: ids) (Node h pm (BUn (KTU u) si)) (lift h pm' (bmk (tu_b u' st') ev out fired)).
+Proof.
+  intros. unfold ok, lift, tu_b. simpl. repeat split; auto; try congruence.
+  intros id. destruct (Nat.eqb_spec id tid) as [->|Hne]; auto.
+  apply H4. apply Nat.eqb_neq. auto.
+Qed.
+
+Ltac ev_tu H := lazy -[app opdel o_next o_clean o_stop o_leaf o_flush o_owner] in H.
+Ltac ev1_tu H := lazy -[tu_inner tu_inner_core app opdel o_next o_clean o_stop o_leaf o_flush o_owner] in H.
+Ltac cpl_tac :=
+  simpl; repeat match goal with Hp : pm_of ?s = _ |- context [pm_of ?s] => rewrite Hp end; simpl;
+  unfold tu_tnf, tu_mid, d01, tis; simpl; intuition congruence.
+Ltac mon_tid :=
+  repeat first [rewrite mrun_app
+               | match goal with H : forall m, mrun _ m ?ev = Some m |- _ => rewrite H end
+               | rewrite opdel_mrun | rewrite Nat.eqb_refl | progress simpl]; reflexivity.
+Ltac mon_oth :=
+  let id := fresh "id" in let E := fresh "E" in intros id E;
+  repeat first [rewrite mrun_app
+               | match goal with H : forall i, mrun i (_ _ i) ?ev = Some _ |- _ => rewrite H end
+               | rewrite opdel_mrun | rewrite E | progress simpl]; reflexivity.
+Ltac ids_tac :=
+  repeat first [apply only_ids_nil | assumption | apply opdel_ids | apply only_ids_app
+               | apply only_ids_cons; [let i := fresh "i" in let E := fresh "E" in
+                                       intros i E; simpl in E; inversion E; left; reflexivity|] ].
+Ltac fin_tu rb :=
+  subst rb; apply tu_fin;
+  [auto | first [assumption | simpl; rewrite app_nil_r; reflexivity | auto] | auto
+  |try solve [cpl_tac]|try solve [mon_tid]|try solve [mon_oth]|try solve [ids_tac]].
+Ltac dinv Hc :=
+  unfold tu_cpl, tu_tnf, tu_mid, d01, tis in Hc; simpl in Hc;
+  repeat match goal with
+  | H : False |- _ => destruct H
+  | H : _ /\ _ |- _ => destruct H
+  | H : _ \/ _ |- _ => destruct H
+  | H : exists _, _ |- _ => destruct H
+  end; subst.
+(* the child's result becomes a concrete record *)
+Ltac child_rec c :=
+  remember c as r eqn:Er in *; clear Er; destruct r as [st' ev' out' fired']; simpl in * |-; subst out'.
+Ltac split_stuck Erb :=
+  repeat match type of Erb with
+  | context [if ?b then _ else _] => is_var b; destruct b; ev_tu Erb
+  | context [match ?o with OVal _ => _ | OErr _ => _ | ODone => _ end] => is_var o; destruct o; ev_tu Erb
+  end.
+
+Ltac next_case HC Erb rb :=
+  ev1_tu Erb;
+  match type of Erb with context [o_next ?I ?si ?e] =>
+    let HCe := fresh "HCe" in let r := fresh "r" in
+    pose proof (HC e) as HCe; set (r := o_next I si e) in Erb, HCe; clearbody r;
+    let HG' := fresh "HG'" in let Hm := fresh "Hm" in let Hoth := fresh "Hoth" in let Hi := fresh "Hi" in
+    let Hh' := fresh "Hh'" in let Hr := fresh "Hr" in let Hp := fresh "Hp" in let o := fresh "o" in
+    destruct HCe as ((HG' & Hm & Hoth & Hi & Hh') & Hr);
+    destruct r as [st' ev' out' fired']; simpl in Hm, Hoth, Hi, Hh', Hr, HG';
+    destruct Hr as [[-> Hp]|(o & -> & Hp)]; [|destruct o]; ev_tu Erb; fin_tu rb
+  end.
+
+Lemma tu_ok_next : forall h pm u si en, G_tu G (Node h pm (BUn (KTU u) si)) -> pm = PFresh \/ pm = PIdle ->
+  ok (G_tu G) (ms_tu tid ms) (tid :: ids) (Node h pm (BUn (KTU u) si))
+     (o_next (wrap (tu_ops vr tid treact I)) (Node h pm (BUn (KTU u) si)) en).
+Proof.
+  intros h pm u si en (Hh & HG & Hc) Hl.
+  change (o_next (wrap (tu_ops vr tid treact I)) (Node h pm (BUn (KTU u) si)) en)
+    with (lift h (pm_next pm (b_out (ro_next (tu_ops vr tid treact I) (BUn (KTU u) si) en)))
+               (ro_next (tu_ops vr tid treact I) (BUn (KTU u) si) en)).
+  remember (ro_next (tu_ops vr tid treact I) (BUn (KTU u) si) en) as rb eqn:Erb.
+  destruct u as [out own [n so seen cl hh] ts rdy comp serr terr df]. destruct en as [est ear].
+  destruct Hl; subst pm; simpl in Hc.
+  - destruct Hc as (HN & ? & ? & ? & ? & ? & ? & ? & ? & ?). simpl in *. subst out own ts rdy comp df n so cl.
+    pose proof (fun en' => child_next I G ms ids tid S Htid si en' HG (or_introl HN)) as HC.
+    destruct est, ear, treact; next_case HC Erb rb.
+  - destruct Hc as (HN & ? & ? & ? & ? & Hmid). simpl in *. subst out ts comp df.
+    pose proof (fun en' => child_next I G ms ids tid S Htid si en' HG (or_intror HN)) as HC.
+    destruct Hmid as [[(? & ? & ?) ?]|[(? & ? & ?) [? ?]]]; simpl in *; subst n so cl rdy.
+    + destruct own, seen, est, ear, treact; next_case HC Erb rb.
+    + subst own. destruct est, ear, treact; next_case HC Erb rb.
+Qed.
+
+Lemma tu_ok_clean : forall h pm u si, G_tu G (Node h pm (BUn (KTU u) si)) -> pm = PIdle \/ pm = PEnded ->
+  ok (G_tu G) (ms_tu tid ms) (tid :: ids) (Node h pm (BUn (KTU u) si))
+     (o_clean (wrap (tu_ops vr tid treact I)) (Node h pm (BUn (KTU u) si))).
+Proof.
+  intros h pm u si (Hh & HG & Hc) Hl.
+  assert (HNl : pm_of si = PIdle \/ pm_of si = PEnded).
+  { destruct Hl; subst pm; simpl in Hc; destruct Hc as [HN _]; auto. }
+  destruct (child_clean I G ms ids tid S Htid si HG HNl) as ((HG' & Hm & Hoth & Hi & Hh') & Hr).
+  destruct u as [out own [n so seen cl hh] ts rdy comp serr terr df]. clear HNl.
+  destruct Hl; subst pm; dinv Hc;
+  change (o_clean (wrap (tu_ops vr tid treact I)) (Node (hist_of si) ?pm (BUn (KTU ?u) si)))
+    with (lift (hist_of si) (pm_clean pm (b_out (ro_clean (tu_ops vr tid treact I) (BUn (KTU u) si))))
+               (ro_clean (tu_ops vr tid treact I) (BUn (KTU u) si)));
+  remember (ro_clean (tu_ops vr tid treact I) (BUn (KTU _) si)) as rb eqn:Erb.
+  all: ev1_tu Erb; child_rec (o_clean I si).
+  all: try match goal with x : outcome |- _ => destruct x end; destruct treact; try destruct seen; try destruct own;
+       ev_tu Erb; fin_tu rb.
+Qed.
+
+Lemma tu_ok_stop : forall h pm u si, G_tu G (Node h pm (BUn (KTU u) si)) ->
+  ok (G_tu G) (ms_tu tid ms) (tid :: ids) (Node h pm (BUn (KTU u) si))
+     (o_stop (wrap (tu_ops vr tid treact I)) (Node h pm (BUn (KTU u) si))).
+Proof.
+  intros h pm u si (Hh & HG & Hc).
+  destruct u as [out own [n so seen cl hh] ts rdy comp serr terr df].
+  destruct pm.
+  3: { (* PBusy *)
+    destruct (child_stop I G ms ids tid S Htid si HG) as ((HG' & Hm & Hoth & Hi & Hh') & Hr).
+    dinv Hc; try destruct own;
+    change (o_stop (wrap (tu_ops vr tid treact I)) (Node (hist_of si) ?pm (BUn (KTU ?u) si)))
+      with (lift (hist_of si) (pm_other pm (b_out (ro_stop (tu_ops vr tid treact I) (BUn (KTU u) si))))
+               (ro_stop (tu_ops vr tid treact I) (BUn (KTU u) si)));
+    remember (ro_stop (tu_ops vr tid treact I) (BUn (KTU _) si)) as rb eqn:Erb;
+    ev1_tu Erb; try child_rec (o_stop I si); destruct treact; try destruct seen;
+    ev_tu Erb; fin_tu rb. }
+  all: dinv Hc;
+    change (o_stop (wrap (tu_ops vr tid treact I)) (Node (hist_of si) ?pm (BUn (KTU ?u) si)))
+      with (lift (hist_of si) (pm_other pm (b_out (ro_stop (tu_ops vr tid treact I) (BUn (KTU u) si))))
+               (ro_stop (tu_ops vr tid treact I) (BUn (KTU u) si)));
+    remember (ro_stop (tu_ops vr tid treact I) (BUn (KTU _) si)) as rb eqn:Erb;
+    ev_tu Erb; fin_tu rb.
+Qed.
+
+Lemma tu_ok_flush : forall h pm u si, G_tu G (Node h pm (BUn (KTU u) si)) ->
+  ok (G_tu G) (ms_tu tid ms) (tid :: ids) (Node h pm (BUn (KTU u) si))
+     (o_flush (wrap (tu_ops vr tid treact I)) (Node h pm (BUn (KTU u) si))).
+Proof.
+  intros h pm u si (Hh & HG & Hc).
+  destruct u as [out own [n so seen cl hh] ts rdy comp serr terr df].
+  destruct (child_flush I G ms ids tid S Htid si HG) as ((HG' & Hm & Hoth & Hi & Hh') & Hr).
+  unfold other_res in Hr.
+  destruct pm; dinv Hc; try congruence;
+    change (o_flush (wrap (tu_ops vr tid treact I)) (Node (hist_of si) ?pm (BUn (KTU ?u) si)))
+      with (lift (hist_of si) (pm_other pm (b_out (ro_flush (tu_ops vr tid treact I) (BUn (KTU u) si))))
+               (ro_flush (tu_ops vr tid treact I) (BUn (KTU u) si)));
+    remember (ro_flush (tu_ops vr tid treact I) (BUn (KTU _) si)) as rb eqn:Erb.
+  all: ev1_tu Erb; child_rec (o_flush I si); ev_tu Erb; split_stuck Erb; fin_tu rb.
+Qed.
+
+Lemma wrap_leaf_fst : forall J h pm b tg o,
+  fst (o_leaf (wrap J) (Node h pm b) tg o) =
+  lift h (pm_other pm (b_out (fst (ro_leaf J b tg o)))) (fst (ro_leaf J b tg o)).
+Proof. intros. simpl. destruct (ro_leaf J b tg o). reflexivity. Qed.
+
+Ltac leaf_child_tac si tg o HG Hc E :=
+  destruct (child_leaf I G ms ids tid S Htid si tg o HG) as ((HG' & Hm & Hoth & Hi & Hh') & Hr);
+  unfold other_res in Hr;
+  dinv Hc; try congruence;
+  let t := match goal with |- context [fst (ro_leaf ?J ?b ?tg' ?o')] => constr:(fst (ro_leaf J b tg' o')) end in
+  remember t as rb eqn:Erb;
+  simpl in Erb; rewrite E in Erb;
+  remember (o_leaf I si tg o) as rh eqn:Erh in *; clear Erh; destruct rh as [r hit]; simpl in * |-;
+  destruct r as [st' ev' out' fired']; simpl in * |-; subst out';
+  ev_tu Erb; split_stuck Erb; fin_tu rb.
+
+Lemma tu_ok_leaf_child : forall h pm u si tg o, G_tu G (Node h pm (BUn (KTU u) si)) ->
+  (match tg with TgNext i | TgClean i => Nat.eqb i tid end) = false ->
+  ok (G_tu G) (ms_tu tid ms) (tid :: ids) (Node h pm (BUn (KTU u) si))
+     (fst (o_leaf (wrap (tu_ops vr tid treact I)) (Node h pm (BUn (KTU u) si)) tg o)).
+Proof.
+  intros h pm u si tg o (Hh & HG & Hc) E. rewrite wrap_leaf_fst.
+  destruct u as [out own [n so seen cl hh] ts rdy comp serr terr df].
+  destruct tg as [i|i]; destruct pm.
+  all: try leaf_child_tac si (TgNext i) o HG Hc E.
+  all: leaf_child_tac si (TgClean i) o HG Hc E.
+Qed.
+
+Ltac maybe_stop Erb si HG :=
+  match type of Erb with
+  | context [o_stop I si] =>
+      let Hr := fresh "Hr" in
+      destruct (child_stop I G ms ids tid S Htid si HG) as ((HG' & Hm & Hoth & Hi & Hh') & Hr);
+      destruct Hr as [[? ?]|[? [? ?]]]; child_rec (o_stop I si)
+  | _ => idtac
+  end.
+
+Lemma tu_ok_leaf_tnext : forall h pm u si o, G_tu G (Node h pm (BUn (KTU u) si)) ->
+  ok (G_tu G) (ms_tu tid ms) (tid :: ids) (Node h pm (BUn (KTU u) si))
+     (fst (o_leaf (wrap (tu_ops vr tid treact I)) (Node h pm (BUn (KTU u) si)) (TgNext tid) o)).
+Proof.
+  intros h pm u si o (Hh & HG & Hc). rewrite wrap_leaf_fst.
+  destruct u as [out own [n so seen cl hh] ts rdy comp serr terr df].
+  destruct pm; dinv Hc;
+  (let t := match goal with |- context [fst (ro_leaf ?J ?b ?tg' ?o')] => constr:(fst (ro_leaf J b tg' o')) end in
+   remember t as rb eqn:Erb); simpl in Erb; rewrite Nat.eqb_refl in Erb;
+  ev1_tu Erb; split_stuck Erb; maybe_stop Erb si HG; try congruence; ev_tu Erb; split_stuck Erb; fin_tu rb.
+Qed.
+
+Lemma tu_ok_leaf_tclean : forall h pm u si o, G_tu G (Node h pm (BUn (KTU u) si)) ->
+  ok (G_tu G) (ms_tu tid ms) (tid :: ids) (Node h pm (BUn (KTU u) si))
+     (fst (o_leaf (wrap (tu_ops vr tid treact I)) (Node h pm (BUn (KTU u) si)) (TgClean tid) o)).
+Proof.
+  destruct vr as [vtu vsi vsierr vte].
+  intros h pm u si o (Hh & HG & Hc). rewrite wrap_leaf_fst.
+  destruct u as [out own [n so seen cl hh] ts rdy comp serr terr df].
+  destruct pm; dinv Hc;
+  (let t := match goal with |- context [fst (ro_leaf ?J ?b ?tg' ?o')] => constr:(fst (ro_leaf J b tg' o')) end in
+   remember t as rb eqn:Erb); simpl in Erb; rewrite Nat.eqb_refl in Erb;
+  ev_tu Erb; split_stuck Erb; fin_tu rb.
+Qed.
+
+Lemma tu_inner_shape : forall u r, exists u',
+  b_st (tu_inner I tid treact u r) = BUn (KTU u') (r_st r) /\
+  (forall v, b_out (tu_inner I tid treact u r) = Some (KN, OVal v) -> r_out r = Some (KN, OVal v)).
+Proof.
+  intros u r. unfold tu_inner, tu_inner_core. destruct (r_out r) as [[[] o]|]; simpl.
+  - destruct o; simpl; try destruct (tu_stop_trig tid treact (tu_set_out u false)); simpl;
+      eexists; (split; [reflexivity|]); intros; congruence.
+  - destruct (tu_join_source u (clean_outcome o)) as [u1 jo]. simpl. eexists; split; [reflexivity|].
+    intros v. destruct jo; simpl; congruence.
+  - eexists; split; [reflexivity|]. congruence.
+Qed.
+
+Lemma tu_next_shape : forall u si en, exists u2 evs,
+  ro_next (tu_ops vr tid treact I) (BUn (KTU u) si) en =
+  bmk (b_st (tu_inner I tid treact u2 (o_next I si (env_own (tu_own u2)))))
+      (evs ++ b_ev (tu_inner I tid treact u2 (o_next I si (env_own (tu_own u2)))))
+      (b_out (tu_inner I tid treact u2 (o_next I si (env_own (tu_own u2))))) (fires en).
+Proof.
+  intros u si en. simpl.
+  match goal with |- context [let '(u1, ev1) := ?x in _] => destruct x as [u1 ev1] end.
+  match goal with |- context [let '(u2, ev2) := ?x in _] => destruct x as [u2 ev2] end.
+  exists u2, (ev1 ++ ev2). rewrite app_assoc. reflexivity.
+Qed.
+
+Lemma tu_spec_ : spec (wrap (tu_ops vr tid treact I)) (G_tu G) (ms_tu tid ms) (tid :: ids).
+Proof.
+  pose proof (sp_laws _ _ _ _ S) as L. constructor.
+  - apply wrap_wlaws.
+  - intros [h pm bd] H. destruct bd; simpl in H; try tauto. destruct k; try tauto.
+    destruct H as (_ & _ & Hc). simpl. intros ->. exact Hc.
+  - simpl. destruct (wl_init _ L) as [Hh Hp]. rewrite Hh, Hp. repeat split; auto; apply (sp_init _ _ _ _ S).
+  - intros id. simpl. destruct (Nat.eqb id tid); [reflexivity|apply (sp_ms_init _ _ _ _ S)].
+  - intros [h pm bd] id Hn. simpl. destruct bd; auto. destruct k; auto.
+    destruct (Nat.eqb_spec id tid) as [->|Hne]. { exfalso. apply Hn. left; auto. }
+    apply (sp_ms_ids _ _ _ _ S). intros Hin. apply Hn. right; auto.
+  - intros [h pm bd] en H Hl. destruct bd; simpl in H; try tauto. destruct k; try tauto. apply tu_ok_next; auto.
+  - intros [h pm bd] H Hl. destruct bd; simpl in H; try tauto. destruct k; try tauto. apply tu_ok_clean; auto.
+  - intros [h pm bd] H. destruct bd; simpl in H; try tauto. destruct k; try tauto. apply tu_ok_stop; auto.
+  - intros [h pm bd] tg o H. destruct bd; simpl in H; try tauto. destruct k; try tauto.
+    destruct tg as [i|i]; destruct (Nat.eqb_spec i tid) as [->|Hne].
+    + apply tu_ok_leaf_tnext; auto.
+    + apply tu_ok_leaf_child; auto. apply Nat.eqb_neq; auto.
+    + apply tu_ok_leaf_tclean; auto.
+    + apply tu_ok_leaf_child; auto. apply Nat.eqb_neq; auto.
+  - intros [h pm bd] H. destruct bd; simpl in H; try tauto. destruct k; try tauto. apply tu_ok_flush; auto.
+  - intros [h pm bd] H. destruct bd; simpl in H; try tauto; destruct k; try tauto; simpl; auto.
+  - (* stop_done *)
+    intros [h pm bd]. simpl. destruct bd; simpl; auto. destruct k; simpl; auto.
+    destruct (tu_out s && negb (tu_own s)); simpl; auto.
+    unfold tu_inner, tu_inner_core.
+    destruct (sp_stop_done _ _ _ _ S inner) as [E|E]; rewrite E; simpl.
+    + destruct (tu_trig_cb tid treact (tu_set_own s true)); simpl; auto.
+    + auto.
+  - (* budget *)
+    intros [h pm bd] en v. destruct bd; try (simpl; congruence). destruct k; try (simpl; congruence).
+    unfold wrap, o_next, o_budget.
+    destruct (tu_next_shape s inner en) as (u2 & evs & E). rewrite E. unfold lift. simpl.
+    destruct (tu_inner_shape u2 (o_next I inner (env_own (tu_own u2)))) as (u' & Es & Eo). rewrite Es.
+    intros Ho. apply Eo in Ho. simpl. eapply (sp_blaw _ _ _ _ S); eauto.
+  - (* quiet *)
+    intros [h pm bd] H Hq id. destruct bd; simpl in H; try tauto. destruct k; try tauto.
+    destruct H as (Hh & HG & Hc). simpl in Hq. simpl.
+    destruct (Nat.eqb id tid).
+    + destruct s as [out own [n so seen cl hh] ts rdy comp serr terr df].
+      destruct Hq; subst pm; dinv Hc; unfold mquiet; simpl; auto.
+    + apply (sp_quiet _ _ _ _ S); auto. destruct Hq; subst pm; simpl in Hc; tauto.
+Qed.
+End Step.
+
+Lemma tu_spec : forall vr tid treact I G ms ids, spec I G ms ids -> ~ In tid ids ->
+  spec (wrap (tu_ops vr tid treact I)) (G_tu G) (ms_tu tid ms) (tid :: ids).
+Proof. intros. apply tu_spec_; auto. Qed.
